@@ -956,7 +956,69 @@ func productUnderflow(box orb.Bound, ls orb.LineString) bool {
 	return false
 }
 
+// knownNaNKey: known finding - with the open option a nearly edge-parallel segment that ends exactly on
+// a box edge line is clipped onto that line and the next intersection divides 0 by 0: NaN vertex.
+const knownNaNKey = "open-bound-nan-vertex-on-edge-run"
+
+func hasNaN(m orb.MultiLineString) bool {
+	for _, p := range m {
+		for _, v := range p {
+			if math.IsNaN(v[0]) || math.IsNaN(v[1]) {
+				return true
+			}
+		}
+	}
+	return false
+}
+
+// nanFamily: the input predicate of that finding - some vertex lies exactly on a box edge line and a
+// neighbouring vertex is within 1e-9 * |edge coordinate| of the same line.
+func nanFamily(box orb.Bound, ls orb.LineString) bool {
+	for i := range ls {
+		for d := 0; d < 2; d++ {
+			for _, e := range []float64{box.Min[d], box.Max[d]} {
+				if ls[i][d] != e {
+					continue
+				}
+				for _, j := range []int{i - 1, i + 1} {
+					if j >= 0 && j < len(ls) && math.Abs(ls[j][d]-e) <= 1e-9*math.Abs(e) {
+						return true
+					}
+				}
+			}
+		}
+	}
+	return false
+}
+
+// knownNaNCase: open option, the finding is listed, some line of the case is in the family and its
+// clip has a NaN coordinate. Such a case is counted as excluded and not judged; every other
+// non-finite output stays a failure.
+func knownNaNCase(c Case) bool {
+	if !c.Open {
+		return false
+	}
+	if _, listed := kf.Get("C07", knownNaNKey); !listed {
+		return false
+	}
+	box := c.Box.Bound()
+	for _, ls := range c.lines() {
+		if len(ls) >= 2 && nanFamily(box, ls) && hasNaN(clip.LineString(box, copyLine(ls), clip.OpenBound(true))) {
+			return true
+		}
+	}
+	return false
+}
+
 func checkCase(c Case) error {
+	if knownNaNCase(c) {
+		stats.Excluded(knownNaNKey)
+		return nil
+	}
+	return checkCaseRaw(c)
+}
+
+func checkCaseRaw(c Case) error {
 	box := c.Box.Bound()
 	lines := c.lines()
 	for _, ls := range lines {
